@@ -24,7 +24,7 @@ ASSUMPTIONS = ['disqualifying conditions reachable today: expiry and the absence
 KEYS = [('rsa1024-0', 'RSA', 'weak'), ('rsa2048-2', 'RSA', 'strong'), ('dsa1024-0', 'DSA', 'weak'), ('dsa2048-1', 'DSA', 'strong'),
         ('ecdsa-p256-0', 'EC', 'weak'), ('ed25519-0', 'EC', 'strong')]
 HASHES = [8, 2, 1]
-SUBJECTS = ['doc', 'self-uid', 'third-uid', 'whole-key', 'message', 'doc-by-subkey', 'doc-noise', 'doc-zero-expiry', 'doc-old-long', 'doc-by-expired-subkey', 'doc-direct-expiry', 'doc-unhashed-noise', 'doc-forged-selfsig', 'doc-by-unbound-subkey']
+SUBJECTS = ['doc', 'self-uid', 'third-uid', 'whole-key', 'message', 'doc-by-subkey', 'doc-noise', 'doc-zero-expiry', 'doc-old-long', 'doc-by-expired-subkey', 'doc-direct-expiry', 'doc-unhashed-noise', 'doc-forged-selfsig', 'doc-by-unbound-subkey', 'doc-by-subkey-of-unvouched-primary', 'doc-forged-uid-revocation']
 
 
 def w_algebra(arg):
@@ -79,6 +79,25 @@ def build_cert(kid, expired, revoked, halg, secret=False, noise=False):
         noise = False
     blob = keypool.ref_cert(kid, uids=('Verdict Key <verdict@example.org>', 'Second <second@example.org>'), subkeys=(('cv25519-0', 0x0C), ('ed25519-1', 0x02)),
                             secret=secret, halg=halg, uid_extra=extra)
+    if noise == 'unvouched':
+        # every self-certification of the primary key carries rubbish integers (none verifies); the subkey bindings are genuine
+        out = b''
+        pk = wire.split_packets(blob)
+        for i, p in enumerate(pk):
+            out += wire.build_packet(2, corrupt(p.body)) if p.tag == 2 and i > 0 and pk[i - 1].tag == 13 else p.raw
+        return out
+    if noise == 'forged-rev':
+        # a certification revocation on the first user id (the one that states the validity period) that merely NAMES the key as issuer:
+        # rubbish integers, made by nobody; the second user id is then certified without any validity period
+        psec = keypool.ref_secret(kid)
+        pk = wire.split_packets(keypool.ref_cert(kid, uids=('Verdict Key <verdict@example.org>',), subkeys=(('cv25519-0', 0x0C), ('ed25519-1', 0x02)),
+                                                 secret=secret, halg=halg, uid_extra=keypool.sp(9, wire.u32(86400)) + keypool.sp(25, b'\x01')))
+        rev = rsig.sign(psec, 0x30, halg, ('cert', psec.pub, 'uid', pk[1].body), keypool.std_hashed(psec.pub.created + 9000, psec.pub.fingerprint, keypool.sp(29, b'\x20')),
+                        keypool.sp(16, psec.pub.keyid))
+        second = b'Second <second@example.org>'
+        cert2 = rsig.sign(psec, 0x13, halg, ('cert', psec.pub, 'uid', second), keypool.std_hashed(psec.pub.created + 50, psec.pub.fingerprint, keypool.sp(27, b'\x03')),
+                          keypool.sp(16, psec.pub.keyid))
+        return pk[0].raw + pk[1].raw + pk[2].raw + wire.build_packet(2, corrupt(rev)) + wire.build_packet(13, second) + wire.build_packet(2, cert2) + b''.join(p.raw for p in pk[3:])
     if noise == 'unbound':
         # somebody else's key material relabelled as a public subkey packet and appended, without any binding signature
         return blob + wire.build_packet(14, keypool.ref_public('ed25519-2').body)
@@ -179,14 +198,18 @@ def scenario(rec, kid, fam, strength, expired, revoked, halg, subject, wrong):
     case = {'kind': 'scn', 'kid': kid, 'expired': expired, 'revoked': revoked, 'halg': halg, 'subject': subject, 'wrong': wrong}
     psec = keypool.ref_secret(kid)
     ppub = psec.pub
-    cert = build_cert(kid, expired, revoked, halg, noise=(subject == 'doc-noise') or {'doc-zero-expiry': 'zero', 'doc-old-long': 'old-long', 'doc-by-expired-subkey': 'sub-expired', 'doc-direct-expiry': 'direct', 'doc-unhashed-noise': 'unhashed', 'doc-forged-selfsig': 'forged', 'doc-by-unbound-subkey': 'unbound'}.get(subject, False))
+    cert = build_cert(kid, expired, revoked, halg, noise=(subject == 'doc-noise') or {'doc-zero-expiry': 'zero', 'doc-old-long': 'old-long', 'doc-by-expired-subkey': 'sub-expired', 'doc-direct-expiry': 'direct', 'doc-unhashed-noise': 'unhashed', 'doc-forged-selfsig': 'forged', 'doc-by-unbound-subkey': 'unbound', 'doc-by-subkey-of-unvouched-primary': 'unvouched',
+                                                                                                    'doc-forged-uid-revocation': 'forged-rev'}.get(subject, False))
     if subject == 'doc-zero-expiry':
         expired = False
     disqualified = False
+    if subject == 'doc-by-subkey-of-unvouched-primary':
+        # the binding signature of the signing subkey is genuine, but no self-signature vouches for the primary key that made it
+        disqualified = True
     if subject == 'doc-by-unbound-subkey':
         # "no valid self-signature": the component the signature names sits in the certificate without any binding signature
         disqualified = True
-    if subject in ('doc-old-long', 'doc-by-expired-subkey', 'doc-direct-expiry', 'doc-unhashed-noise', 'doc-forged-selfsig'):
+    if subject in ('doc-old-long', 'doc-by-expired-subkey', 'doc-direct-expiry', 'doc-unhashed-noise', 'doc-forged-selfsig', 'doc-forged-uid-revocation'):
         if revoked or not expired:
             return          # one scenario per key and hash is enough: the certificate is built expired by construction
         expired = True
@@ -199,14 +222,14 @@ def scenario(rec, kid, fam, strength, expired, revoked, halg, subject, wrong):
             if wrong == 0:
                 body = corrupt(body)
             res = ver.verify(b'verdict coherence', pgpy.PGPSignature.from_blob(wire.build_packet(2, body)))
-        elif subject in ('doc-by-subkey', 'doc-by-expired-subkey'):
+        elif subject in ('doc-by-subkey', 'doc-by-expired-subkey', 'doc-by-subkey-of-unvouched-primary'):
             # the document is signed by the signing subkey of the certificate; the verdict is asked of the (possibly expired) primary
             ssec = keypool.ref_secret('ed25519-1')
             body = rsig.sign(ssec, 0x00, halg, ('doc', b'verdict coherence'), keypool.std_hashed(1600000000, ssec.pub.fingerprint), keypool.sp(16, ssec.pub.keyid))
             if wrong == 0:
                 body = corrupt(body)
             res = ver.verify(b'verdict coherence', pgpy.PGPSignature.from_blob(wire.build_packet(2, body)))
-        elif subject in ('doc', 'doc-noise', 'doc-zero-expiry', 'doc-old-long', 'doc-direct-expiry', 'doc-unhashed-noise', 'doc-forged-selfsig'):
+        elif subject in ('doc', 'doc-noise', 'doc-zero-expiry', 'doc-old-long', 'doc-direct-expiry', 'doc-unhashed-noise', 'doc-forged-selfsig', 'doc-forged-uid-revocation'):
             body = rsig.sign(psec, 0x00, halg, ('doc', b'verdict coherence'), keypool.std_hashed(1600000000, ppub.fingerprint), keypool.sp(16, ppub.keyid))
             if wrong == 0:
                 body = corrupt(body)
